@@ -659,6 +659,11 @@ pub fn notable_claims(now: u64) -> Vec<(Value, Vec<String>)> {
         (base(json!({"k": {"1": "x", "1[0]": "y", "10": ["z"]}, "k1": ["p", "q"], "k10": [1, 2], "k1[0]": "w"})), vec!["$.k10.[1]".into(), "$.k.1".into()]),
         (base(json!({"list": [["a", "b"], ["c"]], "list[0]": [1, 2], "lis": {"t": [9, 8]}})), vec!["$.list[0][1]".into()]),
         (base(json!({"list": [["a", "b"], ["c"]], "list[0]": [1, 2], "lis": {"t": [9, 8]}})), vec!["$.lis.t[0]".into(), "$.list[1]".into()]),
+        // objects that look like structures some layer knows (a JWK, a JWK set, a certificate chain, a status entry): to the
+        // library they are ordinary objects
+        (base(json!({"attestation_key": {"kty": "EC", "crv": "P-256", "x": "eA", "y": "eQ", "usage": {"sig": true, "enc": [1, {"k": 2}]}}, "device_keys": [{"kty": "OKP", "crv": "Ed25519", "x": "AA", "meta": {"n": 1}}, {"keys": [{"kty": "RSA", "n": "AQ", "e": "AQAB"}]}],
+                     "x5c": ["MIIB", {"der": "MIIC"}], "jwks": {"keys": [{"kty": "oct", "k": "AA", "ops": {"o": 1}}]}})),
+         vec!["$.attestation_key.usage.sig".into(), "$.device_keys[0].meta".into(), "$.jwks.keys[0].ops.o".into(), "$.attestation_key.kty".into()]),
         // names that begin like the reserved ones
         (base(json!({"_sdk_version": {"major": 1}, "....": {"x": [1, 2]}, "...and more": 3, "nested": {"_sd_": {"_sdx": 1}, "... ": [true]}})), vec!["$._sdk_version.major".into(), "$......x[0]".into(), "$.nested._sd_._sdx".into()]),
     ]
